@@ -24,6 +24,7 @@ import threading
 import time
 
 from .. import core, build, hrun, sandbox, c20gen
+from .. import shim as _shim
 
 PROP = "C20"
 H = os.path.join(core.VERIF, "harness")
@@ -513,7 +514,7 @@ class SmokeHome:
             f.write(b"Subject: x\n\nbody\n")
         os.chown(os.path.join(self.home, "queue", "mess", "0", "23"), sandbox.uid("q"), sandbox.gid("q"))   # spawn.c insists
         os.chmod(os.path.join(self.home, "queue", "mess", "0", "23"), 0o644)
-        shutil.copy(os.path.join(core.VERIF, "bin", "ql-rec"), os.path.join(self.root, "ql-rec"))
+        shutil.copy(_shim.tool("ql-rec"), os.path.join(self.root, "ql-rec"))
         self.tmp = os.path.join(self.root, "in")
         self.cdb_good = c20gen.cdb_make([
             (b"", b"-"), (b"!joe\0", b"joe\0" + b"%d\0%d\0" % (POPUID, POPUID) + self.uhome.encode() + b"\0\0\0"),
@@ -553,7 +554,7 @@ def smoke_case(h, prog, rng, valgrind=False):
     if rng.random() < 0.3:
         env["RELAYCLIENT"] = rng.choice(["", "@relay.test"])
     if rng.random() < 0.7:
-        env["QMAILQUEUE"] = os.path.join(core.VERIF, "bin", "qq-rec")
+        env["QMAILQUEUE"] = _shim.tool("qq-rec")
         env["NQV_QQ_PLAN"] = rng.choice(["exit=0", "exit=0", "exit=0", "err=Dno thanks", "err=Ztry later", "exit=53", "exit=31", "stop=10,exit=54"])
     extra = {}
     light = valgrind or rng.random() < 0.15
